@@ -167,6 +167,7 @@ func (h *H) addEncO(kind, mode string, ts []*abigen.Type, x *abigen.Ext, v *abig
 	goVal := mk()
 	out, prefix, cls, msg := runOn(mode, pa, o.entry, goVal, jsonText)
 	h.afterCall(d, mode, pa, o.entry, goVal, mk, jsonText, out, cls, o.poke, len(prefix))
+	h.checkTree(d, pa, ts)
 	if !selected {
 		return
 	}
